@@ -551,6 +551,13 @@ func c09Gen(r *Rng) c09Scn {
 					s.Filter = append(s.Filter, k)
 				}
 			}
+			// blank entries: alone (a non-empty list that allows nothing), repeated, next to real keys
+			if r.Chance(1, 4) {
+				s.Filter = append([]string{""}, s.Filter...)
+				if r.Bool() {
+					s.Filter = append(s.Filter, "")
+				}
+			}
 		}
 		for _, k := range keys[:3] {
 			if r.Chance(2, 3) {
